@@ -69,11 +69,13 @@ CHECKS = {
         "technique": "explicit-state bounded model checking of the real store (every history <= d) with the three-way setsum balance recomputed from the files after every history, plus the same oracle on every crash image of the crash explorer",
         "design_ref": "DESIGN.md 4 (C04)",
         "jobs": {
-            "quick": [seq("C04", 4), {"ws": "harness", "bin": "crash_store", "args": ["--prop", "C04", "--depth", 3, "--cfgs", "A-min", "--no-faults"], "timeout": 3000}],
-            "thorough": [seq("C04", 5), seq("C04", 4, COVER), {"ws": "harness", "bin": "crash_store", "args": ["--prop", "C04", "--depth", 4, "--cfgs", "A-min,B-l0", "--no-faults"], "timeout": 6000}],
+            "quick": [seq("C04", 4), {"ws": "harness", "bin": "crash_store", "args": ["--prop", "C04", "--depth", 3, "--cfgs", "A-min", "--no-faults"], "timeout": 3000},
+                      {"ws": "harness", "bin": "tamper", "args": [], "timeout": 3000}],
+            "thorough": [seq("C04", 5), seq("C04", 4, COVER), {"ws": "harness", "bin": "crash_store", "args": ["--prop", "C04", "--depth", 4, "--cfgs", "A-min,B-l0", "--no-faults"], "timeout": 6000},
+                         {"ws": "harness", "bin": "tamper", "args": [], "timeout": 6000}],
         },
         "text": "After every history of <= d steps (manifest rollover ratio 1 so that fragments roll constantly) all manifest fragments are parsed independently of the store: every transaction must satisfy I = O + D, D = removed - added, I = previous O across fragments, every roll-up must list exactly the accumulated set, the last O must equal the sum of the listed digests and the set the live tree lists, and every listed SST's recorded setsum must equal the setsum recomputed from its entries; ManifestVerifier must accept every fragment and LsmVerifier passes (the V step) must not report corruption. The same oracle runs on every recovered crash image (all crash points of the last step, both persistence models).",
-        "note": "Accept half only in this check; the reject half (tampered outputs / digests must be refused) is exercised by the tamper job when present. Depth and alphabet as C01.",
+        "note": "Reject half (tamper job): three curated histories (one manifest fragment per transaction); every single hex digit of every +, -, I, O, D digest of every edit of every fragment changed (crc fixed, and crc stale), and each of the first 8 entries of every compaction / GC output dropped (newest version of its key), duplicated as an invented older version, or modified -- SST rebuilt by the real builder and renamed everywhere, digests left alone and, separately, the whole I/O/D chain re-derived so that only the data-level GC check can object: ManifestVerifier, Manifest::verify and LsmVerifier must refuse every one of the ~33 k tampered copies and accept the untampered one. Not tampered: the roll-up of the oldest fragment present (nothing to compare it with) and outputs that re-create an input byte for byte. Depth and alphabet of the accept half as C01.",
     },
     "C05": {
         "level": "model_checking",
